@@ -16,7 +16,8 @@ G_UNITS = {
 # ---- type grammar with ground truth: (text, mentions a type/const parameter) ; parameters: T, U, const N, lifetime 'a
 ATOMS = [("T", True), ("U", True), ("u8", False), ("String", False), ("r#T", True), ("::T", False), ("m::T", False), ("T::Assoc", True),
          ("<T as Tr>::Assoc", True), ("<u8 as Tr<U>>::Assoc", True), ("<u8 as Tr>::Assoc", False), ("[u8; N]", True), ("[u8; 4]", False),
-         ("&'a str", False), ("Tn", False), ("N2", False), ("()", False), ("!", False), ("dyn Tr", False), ("dyn Tr2<T>", True), ("impl_::U", False)]
+         ("&'a str", False), ("Tn", False), ("N2", False), ("()", False), ("!", False), ("dyn Tr", False), ("dyn Tr2<T>", True), ("impl_::U", False),
+         ("v!(T)", True), ("v!(u8)", False), ("v![(u8, [U; 2])]", True), ("m::v!{ N }", True)]
 WRAPS = [lambda s: "Option<%s>" % s, lambda s: "Vec<%s>" % s, lambda s: "Box<%s>" % s, lambda s: "::std::rc::Rc<%s>" % s,
          lambda s: "core::marker::PhantomData<%s>" % s, lambda s: "&'a %s" % s, lambda s: "&'a mut %s" % s, lambda s: "(%s, u8)" % s, lambda s: "(u8, %s,)" % s,
          lambda s: "[%s; 3]" % s, lambda s: "[%s]" % s, lambda s: "fn(%s) -> u8" % s, lambda s: "fn(u8) -> %s" % s, lambda s: "*const %s" % s, lambda s: "*mut %s" % s,
